@@ -168,7 +168,7 @@ def _format_resname(res):
     out = ''
     if chain:
         out += chain + '-'
-    resname = res.get('resname')
+    resname = res.get('resname', '')
     out += resname
     if resname and resname[-1].isdigit():
         out += '#'
@@ -228,11 +228,12 @@ def annotate_modifications(molecule, modifications, mutations, resspec_counts):
         'chain', 'resname' and 'resid'. The second element is the mutation that
         should be applied.
     resspec_counts: list[dict]
-        List modified in place containing information about whether a
-        modification/mutation has been applied successfully. If the target is
-        found, the dictionary has one entry, {'success': True}. If not,
-        'success' is False and there are additional items to indicate information
-        about the failure.
+        List modified in place. One entry is appended per requested
+        modification/mutation, with the items 'success' (whether a matching
+        residue was found in this molecule), 'key' ('modification' or
+        'mutation') and 'index' (position of the request in its list). If not
+        found, there are additional items to indicate information about the
+        failure.
 
     Raises
     ------
@@ -253,18 +254,14 @@ def annotate_modifications(molecule, modifications, mutations, resspec_counts):
     residue = {key: residue_graph.nodes[0].get(key)
                for key in 'chain resid resname insertion_code'.split()}
     for mutmod, key, library in associations:
-        for resspec, mod in mutmod:
-            extra = False
+        for idx, (resspec, mod) in enumerate(mutmod):
             mod_found = _resiter(mod, residue_graph, resspec, library, key, molecule)
+            # Record for every request whether it matched in this molecule.
+            entry = {'success': mod_found, 'key': key, 'index': idx}
             if not mod_found:
-                #if no mod found, return that there's a problem
-                resspec_counts.append({'success': False,
-                                       'mutmod': _format_resname(resspec),
-                                       'post': mod,})
-                extra = True
-    #return that everything's fine by default
-    if not extra:
-        resspec_counts.append({'success': True})
+                entry['mutmod'] = _format_resname(resspec)
+                entry['post'] = mod
+            resspec_counts.append(entry)
 
 class AnnotateMutMod(Processor):
     """
@@ -297,8 +294,14 @@ class AnnotateMutMod(Processor):
         annotate_modifications(molecule, self.modifications, self.mutations, self.resspec_counts)
         return molecule
     def run_system(self, system):
+        del self.resspec_counts[:]
         super().run_system(system)
-        _exit = sum([i['success'] for i in self.resspec_counts])
-        if _exit == 0:
-            LOGGER.warning('Residue specified by "{}" for mutation "{}" not found',
-                           self.resspec_counts[0]['mutmod'], self.resspec_counts[0]['post'])
+        # A request is reported when it matched in none of the molecules.
+        requests = [('modification', self.modifications), ('mutation', self.mutations)]
+        for key, mutmod in requests:
+            for idx, (resspec, mod) in enumerate(mutmod):
+                found = any(entry['success'] for entry in self.resspec_counts
+                            if entry['key'] == key and entry['index'] == idx)
+                if not found:
+                    LOGGER.warning('Residue specified by "{}" for {} "{}" not found',
+                                   _format_resname(resspec), key, mod)
